@@ -16,9 +16,11 @@ import (
 	"os"
 	"os/exec"
 	"path/filepath"
+	"sort"
 	"strconv"
 	"strings"
 	"sync"
+	"sync/atomic"
 	"syscall"
 	"time"
 
@@ -143,7 +145,8 @@ type vchild struct {
 	id    int
 	cmd   *exec.Cmd
 	stdin io.WriteCloser
-	lines chan string // control lines from fd 3
+	lines chan string // control lines from fd 3 (all but STATUS)
+	stat  chan string // STATUS lines
 	done  chan struct{}
 	alive bool
 }
@@ -155,10 +158,13 @@ type vcluster struct {
 	engine  string
 	ports   [][3]int // redis, http, raft
 	extra   []string // further vnode flags
+	env     []string // further environment of every child (VAR=value)
 	kids    []*vchild
 	starts  int
 	logSeq  int
 	verbose bool
+	sentMu  sync.Mutex
+	sent    map[string]int
 }
 
 func newCluster(vnode, root string, n int, engine string, extra []string) (*vcluster, error) {
@@ -174,6 +180,37 @@ func newCluster(vnode, root string, n int, engine string, extra []string) (*vclu
 }
 
 func (cl *vcluster) redisPort(i int) int { return cl.ports[i-1][0] }
+
+// noteSent keeps the distinct kinds of early sends a node reported (with a count).
+func (cl *vcluster) noteSent(i int, line string) {
+	f := strings.Fields(line)
+	key := fmt.Sprintf("%d %s %s", i, f[2], f[3]) // node, newleader=.., tvchanged=..
+	cl.sentMu.Lock()
+	if cl.sent == nil {
+		cl.sent = map[string]int{}
+	}
+	cl.sent[key]++
+	cl.sentMu.Unlock()
+}
+
+// sentEvents turns the early-send reports into trace events (one per node and kind).
+func (cl *vcluster) sentEvents() []trace.M {
+	cl.sentMu.Lock()
+	defer cl.sentMu.Unlock()
+	var keys []string
+	for k := range cl.sent {
+		keys = append(keys, k)
+	}
+	sort.Strings(keys)
+	var out []trace.M
+	for _, k := range keys {
+		f := strings.Fields(k)
+		n, _ := strconv.Atoi(f[0])
+		out = append(out, trace.M{"ev": "sent", "n": n, "early": true, "newleader": f[1] == "newleader=true",
+			"tvchanged": f[2] == "tvchanged=true", "count": cl.sent[k]})
+	}
+	return out
+}
 
 func (cl *vcluster) portsFlag() string {
 	var t []string
@@ -201,6 +238,7 @@ func (cl *vcluster) start(i int, env ...string) (*vchild, error) {
 	}
 	cmd.ExtraFiles = []*os.File{pw}
 	cmd.Env = append(os.Environ(), "VERIF_CTL_FD=3")
+	cmd.Env = append(cmd.Env, cl.env...)
 	cmd.Env = append(cmd.Env, env...)
 	cmd.SysProcAttr = &syscall.SysProcAttr{Pdeathsig: syscall.SIGKILL}
 	stdin, err := cmd.StdinPipe()
@@ -215,13 +253,23 @@ func (cl *vcluster) start(i int, env ...string) (*vchild, error) {
 	}
 	pw.Close()
 	lf.Close()
-	k := &vchild{id: i, cmd: cmd, stdin: stdin, lines: make(chan string, 256), done: make(chan struct{}), alive: true}
+	k := &vchild{id: i, cmd: cmd, stdin: stdin, lines: make(chan string, 256), stat: make(chan string, 16),
+		done: make(chan struct{}), alive: true}
 	go func() {
 		sc := bufio.NewScanner(pr)
 		sc.Buffer(make([]byte, 1<<16), 1<<20)
 		for sc.Scan() {
+			ch := k.lines
+			if strings.HasPrefix(sc.Text(), "STATUS ") {
+				ch = k.stat
+			}
+			if strings.HasPrefix(sc.Text(), "SENT ") {
+				// white-box report of processReady: messages of a Ready left before its persist
+				cl.noteSent(i, sc.Text())
+				continue
+			}
 			select {
-			case k.lines <- sc.Text():
+			case ch <- sc.Text():
 			default: // never block the reader
 			}
 		}
@@ -232,6 +280,21 @@ func (cl *vcluster) start(i int, env ...string) (*vchild, error) {
 	cl.kids[i] = k
 	cl.starts++
 	return k, nil
+}
+
+// logTail returns the last 16 KB of the newest log file of node i.
+func (cl *vcluster) logTail(i int) string {
+	for q := cl.logSeq; q > 0; q-- {
+		b, err := os.ReadFile(filepath.Join(cl.root, fmt.Sprintf("node%d.%d.log", i, q)))
+		if err != nil {
+			continue
+		}
+		if len(b) > 16384 {
+			b = b[len(b)-16384:]
+		}
+		return string(b)
+	}
+	return ""
 }
 
 // waitLine returns the first control line with one of the prefixes; "" after the timeout
@@ -327,6 +390,8 @@ type nodeStatus struct {
 	LastIndex      uint64 `json:"last_index"`
 	LastSnapIndex  uint64 `json:"last_snap_index"`
 	Stopping       bool   `json:"stopping"`
+	SnapIndex      uint64 `json:"snap_index"`
+	SnapVoters     int    `json:"snap_voters"`
 }
 
 func (k *vchild) status(to time.Duration) (nodeStatus, bool) {
@@ -334,9 +399,16 @@ func (k *vchild) status(to time.Duration) (nodeStatus, bool) {
 	if k == nil || !k.alive || k.exited() {
 		return st, false
 	}
+	for len(k.stat) > 0 { // drop stale answers
+		<-k.stat
+	}
 	k.send("status")
-	ln := k.waitLine(to, "STATUS ")
-	if !strings.HasPrefix(ln, "STATUS ") {
+	var ln string
+	select {
+	case ln = <-k.stat:
+	case <-k.done:
+		return st, false
+	case <-time.After(to):
 		return st, false
 	}
 	if json.Unmarshal([]byte(ln[7:]), &st) != nil {
@@ -397,7 +469,7 @@ func (o zop) args() []string {
 	return nil
 }
 
-// replyInt maps a reply to the model's integer: nil -> 0, "OK" -> 1, numeric bulk -> its value.
+// replyInt maps a reply to the model's integer: nil -> 0, "OK" -> -1, numeric bulk -> its value.
 func replyInt(v interface{}) (int64, bool) {
 	switch x := v.(type) {
 	case nil:
@@ -406,7 +478,7 @@ func replyInt(v interface{}) (int64, bool) {
 		return x, true
 	case string:
 		if x == "OK" {
-			return 1, true
+			return -1, true
 		}
 		n, err := strconv.ParseInt(x, 10, 64)
 		return n, err == nil
@@ -477,6 +549,7 @@ type history struct {
 	nextID int
 	nOK    int
 	nFail  int
+	nRefused int
 	nInv   int
 }
 
@@ -508,21 +581,53 @@ func (h *history) ok(id int, res int64) {
 	h.mu.Unlock()
 }
 
-func (h *history) fail(id int) {
+// refusals that queueRequest / GetHandleNode give before anything is proposed to raft
+var definiteRefusals = []string{"the raft is not ready for write", "partition of the node has no leader",
+	"namespace is not found", "the node stopped", "namespace is not ready"}
+
+// fail records an operation that was not answered with a value.  A refusal given before the
+// proposal is `refused` (must never take effect), everything else `fail` (may still take effect).
+func (h *history) fail(id int, err error) {
+	why := ""
+	ev := "fail"
+	if err != nil {
+		why = err.Error()
+		if len(why) > 80 {
+			why = why[:80]
+		}
+		if _, isReply := err.(respErr); isReply {
+			for _, d := range definiteRefusals {
+				if strings.Contains(why, d) {
+					ev = "refused"
+				}
+			}
+		}
+	}
 	h.mu.Lock()
-	h.nFail++
-	h.ev = append(h.ev, trace.M{"ev": "fail", "id": id})
+	if ev == "fail" {
+		h.nFail++
+	} else {
+		h.nRefused++
+	}
+	h.ev = append(h.ev, trace.M{"ev": ev, "id": id, "why": why})
 	h.mu.Unlock()
 }
 
-func (h *history) write(path string) error {
+// write stores the history; `extra` events (white-box reports that have no place in the
+// parent's order) are put right after the first line.
+func (h *history) write(path string, extra ...trace.M) error {
 	w, err := trace.Create(path)
 	if err != nil {
 		return err
 	}
 	h.mu.Lock()
-	for _, e := range h.ev {
+	for i, e := range h.ev {
 		w.Emit(e)
+		if i == 0 {
+			for _, x := range extra {
+				w.Emit(x)
+			}
+		}
 	}
 	h.mu.Unlock()
 	return w.Close()
@@ -543,6 +648,41 @@ type workload struct {
 	maxOps  int  // stop by itself after this many invocations (0 = no limit)
 	targets []int // nodes the clients may talk to (1-based), changed under mu
 	gen     int
+	leader  int32 // node that last reported itself leader (0 = unknown); see popOK
+	think   int   // mean client think time in ms between operations (0 = none)
+	burst   int   // the first `burst` operations of a run are issued without think time (batched applies)
+	pollOn  bool
+}
+
+// popOK: LPOP / RPOP are answered nil by any replica whose LOCAL list is empty, and SETNX 0 by
+// any replica that LOCALLY has the key, without going through raft (node/list.go
+// preCheckListLength, node/keys.go setnxCommand) - known finding c04-pop-precheck-local-read.
+// Avoid rule of the general corpus: these three are only sent to the replica that currently
+// reports itself leader.
+func (w *workload) popOK(target int) bool {
+	return w.cl.n == 1 || int(atomic.LoadInt32(&w.leader)) == target
+}
+
+// pollLeader keeps the leader hint fresh (status of every live child every 60 ms).
+func (w *workload) pollLeader(stop chan struct{}) {
+	for {
+		select {
+		case <-stop:
+			return
+		case <-time.After(60 * time.Millisecond):
+		}
+		ld := 0
+		for i := 1; i <= w.cl.n; i++ {
+			k := w.cl.kids[i]
+			if k == nil || !k.alive || k.exited() {
+				continue
+			}
+			if st, ok := k.status(time.Second); ok && st.IsLead {
+				ld = i
+			}
+		}
+		atomic.StoreInt32(&w.leader, int32(ld))
+	}
 }
 
 func newWorkload(cl *vcluster, h *history, seed int64, nCli int) *workload {
@@ -578,6 +718,9 @@ func (w *workload) run(maxOps int) {
 	w.gen++
 	gen := w.gen
 	w.mu.Unlock()
+	if w.cl.n > 1 {
+		go w.pollLeader(w.stop)
+	}
 	for c := 0; c < w.nCli; c++ {
 		w.wg.Add(1)
 		go func(c int) {
@@ -596,8 +739,16 @@ func (w *workload) run(maxOps int) {
 					return
 				default:
 				}
+				inBurst := w.burst > 0 && w.issuedOps() < w.burst
+				if inBurst && conn != nil && !w.popOK(target) {
+					conn.close() // the burst of batchable commands goes to the leader (DEL is refused elsewhere)
+					conn = nil
+				}
 				if conn == nil {
 					target = w.pickTarget(rng)
+					if ld := int(atomic.LoadInt32(&w.leader)); inBurst && ld != 0 {
+						target = ld
+					}
 					if target == 0 {
 						time.Sleep(20 * time.Millisecond)
 						continue
@@ -610,6 +761,9 @@ func (w *workload) run(maxOps int) {
 						continue
 					}
 				}
+				if w.think > 0 && w.issuedOps() >= w.burst {
+					time.Sleep(time.Duration(w.think/2+rng.Intn(w.think+1)) * time.Millisecond)
+				}
 				w.mu.Lock()
 				if w.maxOps > 0 && w.issued >= w.maxOps {
 					w.mu.Unlock()
@@ -619,10 +773,25 @@ func (w *workload) run(maxOps int) {
 				w.mu.Unlock()
 				id := w.h.newID()
 				op := genOp(rng, id)
+				if inBurst {
+					// SET / DEL on different keys, issued concurrently without think time: several of them
+					// end up in one Ready and are applied as one write batch (CommitBatch answers them)
+					op = []zop{{"set", "s1", int64(1000 + id)}, {"del", "s2", 0}, {"set", "s2", int64(1000 + id)}, {"del", "s1", 0}}[rng.Intn(4)]
+				}
+				for (op.T == "lpop" || op.T == "rpop" || op.T == "setnx") && !w.popOK(target) {
+					op = genOp(rng, id)
+				}
 				w.h.inv(id, op)
 				v, err := conn.do(w.opTO, op.args()...)
 				if err == nil {
 					if n, ok := replyInt(v); ok {
+						if op.T == "del" && n == 0 {
+							// avoid rule of known finding c04-del-merge-swallows-errors: the DEL / EXISTS merge
+							// layer turns the error of a sub-command into the count 0, so "0" does not say
+							// whether the delete happened, will happen, or was refused
+							w.h.fail(id, errors.New("del answered 0"))
+							continue
+						}
 						w.h.ok(id, n)
 						if rng.Intn(12) == 0 { // move to another node now and then
 							conn.close()
@@ -633,12 +802,34 @@ func (w *workload) run(maxOps int) {
 					err = fmt.Errorf("unexpected reply %v", v)
 				}
 				// an error reply or a broken connection: the operation may or may not take effect
-				w.h.fail(id)
-				if _, isReply := err.(respErr); !isReply || rng.Intn(2) == 0 {
-					conn.close()
-					conn = nil
+				w.h.fail(id, err)
+				conn.close()
+				conn = nil
+				// Back off until some node takes a write to an unmodelled key again: every failed
+				// operation stays "may still take effect" for the validator, so the clients must not
+				// pile them up while the group has no leader.
+				for probes := 0; ; probes++ {
+					select {
+					case <-w.stop:
+						return
+					default:
+					}
+					time.Sleep(40 * time.Millisecond)
+					t := w.pickTarget(rng)
+					if t == 0 {
+						continue
+					}
+					pc, err := dialResp(w.cl.redisPort(t), 500*time.Millisecond)
+					if err != nil {
+						continue
+					}
+					v, err := pc.do(1500*time.Millisecond, "set", keyPrefix+"warm", "p")
+					if err == nil && v == "OK" {
+						conn, target = pc, t
+						break
+					}
+					pc.close()
 				}
-				time.Sleep(40 * time.Millisecond)
 			}
 		}(c)
 	}
@@ -744,8 +935,50 @@ func (cl *vcluster) settle(to time.Duration) bool {
 	return false
 }
 
-// readAll dumps every node into the history; false if a node could not be read.
+// appliedAll returns the applied index of every node (nil if one cannot be asked).
+func (cl *vcluster) appliedAll() []uint64 {
+	var a []uint64
+	for i := 1; i <= cl.n; i++ {
+		st, ok := cl.kids[i].status(2 * time.Second)
+		if !ok {
+			return nil
+		}
+		a = append(a, st.Applied)
+	}
+	return a
+}
+
+// readAll dumps every node into the history; false if a node could not be read.  The dumps
+// only count if no replica applied anything while they were taken (a straggling proposal
+// would make the replicas look different); otherwise the barrier is repeated.
 func (cl *vcluster) readAll(h *history) bool {
+	for try := 0; try < 4; try++ {
+		before := cl.appliedAll()
+		tmp := &history{}
+		if !cl.readAllOnce(tmp) {
+			return false
+		}
+		after := cl.appliedAll()
+		same := before != nil && after != nil
+		for i := 0; same && i < len(before); i++ {
+			if before[i] != after[i] || before[i] != before[0] {
+				same = false
+			}
+		}
+		if same {
+			for _, e := range tmp.ev {
+				h.add(e)
+			}
+			return true
+		}
+		if !cl.settle(60 * time.Second) {
+			return false
+		}
+	}
+	return false
+}
+
+func (cl *vcluster) readAllOnce(h *history) bool {
 	for i := 1; i <= cl.n; i++ {
 		var st zstore
 		var err error
